@@ -720,6 +720,13 @@ func (e *Enc) evalCall(env *Env, n CCall, cur, old *State) Val {
 		return Val{T: fmt.Sprintf("(= (if_typ %s) %d)", arg(0).T, e.sorts.TypeIDNamed("*errors.errorString")), Typ: tBool}
 	case "typeOf":
 		return Val{T: "(if_typ " + arg(0).T + ")", Typ: tInt}
+	case "string":
+		// string(x) for x of a named string type: the identity on the SMT level
+		v := arg(0)
+		if e.sortOfVal(v) != "String" {
+			e.evalFail(env, "string(x): x is not of a string type")
+		}
+		return Val{T: v.T, Typ: types.Typ[types.String]}
 	case "typeIs":
 		if len(n.Args) != 2 {
 			e.evalFail(env, "typeIs(e, T)")
